@@ -9,7 +9,10 @@ PLAN = dict(
          "identity mutants excluded) at every DER offset (a quarter of the offsets, selected by the object number, when the issuer key is P-384), every truncation and 2 trailing-data extensions. c15.chains: one case = one "
          "generated PKI (a base chain of depth 0..3 changed by one of 21 recipes (cycle of 29: 8 slots mix 2-3 recipes), plus noise) built three times (SM2 keys, "
          "mixed key types, ECDSA twin through crypto/x509) and queried at 4+ explicit verification times x key-usage sets per target. "
-         "c15.sha1: the object workload restricted to SHA-1 signature algorithms, run with GODEBUG=x509sha1=1 only. "
+         "Structured key material (SM2 and P-256 keys whose public X and/or Y has one or two leading zero bytes, or whose scalar has; fixed "
+         "scalars re-validated at child start against the reference curve) is used by object number, not by chance: every second certificate "
+         "subject key, every second SM2/P-256 signer (issuer, CSR, self-signed) key, the temporary key of 6 of every 7 SM2 CFCA requests (each class "
+         ">= 3 times per quick run) and one key of every third topology. c15.sha1: the object workload restricted to SHA-1 signature algorithms, run with GODEBUG=x509sha1=1 only. "
          "distinct = class keys (configuration | object kind / signer / algorithm / subject key / CA / constraints, or recipe / depth / "
          "number of certificates / outcome pattern); no case is marked trivial",
     jobs=both("c15.objects", ["avx2", "purego"], shards=(6, 14), floor=1000)
